@@ -29,6 +29,8 @@ class PCfg:
         self.expr = Cfg()
         self.agg_in_mutate = True
         self.win_in_mutate = True
+        self.expose = 3  # chance (of 10) of a final mutate that copies hidden columns into visible ones
+        self.win_direct = 1  # chance (of 10) that a mutate item is a window function at its root
         self.sub_len = 2
         self.captures = True
         self.allow_tall = False
@@ -231,7 +233,11 @@ class PipeGen:
             taken.add(name)
             fam = self.pick(FAMS if (self.cfg.expr.strings and self.cfg.expr.dates) else ("int", "float", "bool"))
             use_ftype = self.chance(3)
-            e = eg.gen(fam, self.depth(), agg=agg and use_ftype, win=win and use_ftype)
+            e = None
+            if win and self.chance(self.cfg.win_direct):
+                e = eg.window(fam, self.depth())
+            if e is None:
+                e = eg.gen(fam, self.depth(), agg=agg and use_ftype, win=win and use_ftype)
             if not any(nd[0] == "col" for nd in walk_expr(e)) and self.chance(8):
                 e = eg.leaf(fam)  # constant columns stay rare (they mostly exercise engine quirks)
             try:
@@ -243,13 +249,35 @@ class PipeGen:
                 self.classes.add("overwrite")
         return self.emit({"out": self.new_var(), "verb": "mutate", "in": var, "items": items})
 
+    def split_pred(self, var):
+        """A predicate over one visible column with a pivot taken from the column's values: it keeps some rows and
+        drops others, so whatever is computed before / after the filter differs observably."""
+        t = self.t(var)
+        r = self.colref(var)
+        if r is None:
+            return None
+        ref, cid, fam = r
+        col = ["col", ref]
+        if fam == "bool":
+            return col if self.chance(5) else ["fn", "invert", [col], {}]
+        vals = sorted({v for v in t.data[cid] if v is not None and v is not UNDEF})
+        if not vals or fam == "null":
+            return ["fn", self.pick(["is_null", "is_not_null"]), [col], {}]
+        pivot = self.pick(vals[:6] + vals[-2:])
+        op = self.pick(["eq", "ne"] if fam == "str" else ["le", "gt", "lt", "ge", "eq", "ne"])
+        return ["fn", op, [col, ["lit", enc(pivot)]], {}]
+
     def v_filter(self, var):
         t = self.t(var)
         eg = self.eg(var)
         k = self.draw(st.integers(1, 2))
         preds = []
         for _ in range(k):
-            e = eg.gen("bool", self.depth())
+            e = self.split_pred(var) if self.chance(4) else None
+            if e is None:
+                e = eg.gen("bool", self.depth())
+            if not any(nd[0] == "col" for nd in walk_expr(e)) and self.chance(9):
+                e = self.split_pred(var) or e  # literal-only predicates stay rare: they make everything downstream trivial
             ok = True
             try:
                 vec = evaluate(self.env, t, e, "plain")
@@ -260,7 +288,24 @@ class PipeGen:
                 r = self.colref(var)
                 e = ["fn", "is_not_null", [["col", r[0]]], {}] if r else ["lit", True]
             preds.append(e)
+        if t.n > 1 and self.chance(8) and self._kept(t, preds) in (0, t.n):
+            # a filter that keeps nothing (or everything) makes the rest of the pipeline trivial: prefer one that splits
+            for _ in range(3):
+                e = self.split_pred(var)
+                if e is not None and 0 < self._kept(t, [e]) < t.n:
+                    preds = [e]
+                    break
         return self.emit({"out": self.new_var(), "verb": "filter", "in": var, "preds": preds})
+
+    def _kept(self, t, preds):
+        try:
+            keep = [True] * t.n
+            for e in preds:
+                vec = evaluate(self.env, t, e, "plain")
+                keep = [k and v is True for k, v in zip(keep, vec.vals)]
+            return sum(keep)
+        except (OutOfDomain, RefReject):
+            return -1
 
     def order_keys(self, var, k=None, unique=False):
         t = self.t(var)
@@ -539,7 +584,7 @@ class PipeGen:
             self.classes.add("union_permuted")
         return self.emit({"out": self.new_var(), "verb": "select", "in": var, "cols": [{"c": n} for n in order]})
 
-    def v_union(self, var):
+    def v_union(self, var, follow=True):
         t = self.t(var)
         if t.group:
             var = self.emit({"out": self.new_var(), "verb": "ungroup", "in": var})
@@ -555,12 +600,41 @@ class PipeGen:
         rvar = self.shape_to(rvar, target)
         if rvar is None:
             return None
+        tag = None
+        if self.chance(2):
+            # the tagging idiom: a literal column of the same name on both operands
+            taken = set(t.names()) | set(self.t(rvar).names())
+            fresh = [n for n in data.NEW_NAMES if n not in taken]
+            if fresh:
+                name = self.pick(fresh)
+                fam = self.pick(["str", "int"])
+                la, lb = (["lit", "a"], ["lit", "b"]) if fam == "str" else (["lit", 1], ["lit", 2])
+                if self.chance(2):
+                    lb = la
+                var = self.emit({"out": self.new_var(), "verb": "mutate", "in": var, "items": [[name, la]]})
+                rvar = self.emit({"out": self.new_var(), "verb": "mutate", "in": rvar, "items": [[name, lb]]})
+                if var is None or rvar is None:
+                    return None
+                self.classes.add("union_tagged")
+                tag = (var, name)
         if self.t(rvar).hidden():
             self.classes.add("union_hidden")
         out = self.emit({"out": self.new_var(), "verb": "union", "in": var, "right": rvar,
                          "distinct": self.chance(4)})
         if out is not None:
             self.classes.add("union")
+        if follow and out is not None and tag is not None and self.chance(5):
+            # ... followed by counting per tag, through the reference held from the left operand or by name
+            ref = {"v": tag[0], "n": tag[1]} if self.chance(5) else {"c": tag[1]}
+            gv = self.emit({"out": self.new_var(), "verb": "group_by", "in": out, "cols": [ref], "add": False})
+            if gv is not None:
+                cn = self.pick([n for n in data.NEW_NAMES if n != tag[1]])
+                sv = self.emit({"out": self.new_var(), "verb": "summarize", "in": gv,
+                                "items": [[cn, ["fn", "count_star", [], {}]]]})
+                if sv is not None:
+                    self.classes.add("union_tag_count")
+                    return sv
+                return None
         return out
 
     # ---- driver ----
@@ -594,10 +668,40 @@ class PipeGen:
                 var = v2
         return var
 
+    def expose_hidden(self, var, k=2):
+        """mutate(z=<reference to a hidden column still in scope>): makes the state of hidden columns observable."""
+        t = self.t(var)
+        vis = {c for _, c in t.visible}
+        cands, seen = [], set()
+        for ref, c in self.scope(var).capt:
+            if c in t.scope and c not in vis and c not in seen:
+                seen.add(c)
+                cands.append(ref)
+        if not cands:
+            return var
+        items, taken = [], set(t.names())
+        for _ in range(min(k, len(cands))):
+            ref = self.pick(cands)
+            fresh = [n for n in data.NEW_NAMES + ["h1", "h2"] if n not in taken]
+            if not fresh:
+                break
+            name = self.pick(fresh)
+            taken.add(name)
+            items.append([name, ["col", ref]])
+        if not items:
+            return var
+        out = self.emit({"out": self.new_var(), "verb": "mutate", "in": var, "items": items})
+        if out is None:
+            return var
+        self.classes.add("expose_hidden")
+        return out
+
     def pipeline(self):
         var = self.source()
         n = self.draw(st.integers(self.cfg.min_len, self.cfg.max_len))
         var = self.extend(var, n)
+        if self.cfg.captures and self.chance(self.cfg.expose):
+            var = self.expose_hidden(var)
         t = self.t(var)
         if not t.visible:
             raise RefBug("empty visible list")
